@@ -35,10 +35,10 @@ P = {
    text="A recording bus logs every message the real controller emits for many types/addresses/page lists/retry patterns; a trace checker verifies request-ack-before-data, per-item offsets 0,16,32.., chunk sizes, concatenation == item bytes, count == chunks since the request, query right after count, the config block == the type's block, and nothing of a transfer after a request that was NOT acknowledged (on attempts 1, 2 and 3). Transfers just below and above 65536 chunks are included. The same predicates are applied to calls made with a Sign object that has already performed another call (succeeded or given up; often the same pages again).",
    note="Trusted: the trace automaton; the harness's transcription of the 11 blocks."),
  "C10": dict(cat="fault_enumeration", sec="4/C10", tech="runtime monitoring: lockstep reference protocol machine inside an adversarial scripted bus, exhaustive reply-script DFS",
-   text="Every reply script over a 44-symbol alphabet is enumerated depth-first to the natural end of each controller operation (polling bounded); at every step the message the real controller emits and its final outcome are compared with an independent flat-state-machine model of the documented protocol. The same enumeration is repeated on Sign objects that have already performed one of 20 canned earlier calls (successful, given up after three failures, abandoned on a bus error, flip-style query unanswered, ...), each later call against a fresh reference machine, so that nothing a call leaves behind in the object can stand in for a reply.",
+   text="Every reply script over a 44-symbol alphabet is enumerated depth-first to the natural end of each controller operation (polling bounded); at every step the message the real controller emits and its final outcome are compared with an independent flat-state-machine model of the documented protocol. The same enumeration is repeated on Sign objects that have already performed one of 26 canned earlier calls (successful, given up after three failures, abandoned on a bus error, flip-style query unanswered, ...), each later call against a fresh reference machine, so that nothing a call leaves behind in the object can stand in for a reply.",
    note="Trusted: refctl (Appendix C). Polling loops explored to a bound."),
  "C11": dict(cat="fault_enumeration", sec="4/C11", tech="runtime monitoring: model-free trace invariants on the same exhaustive reply-script conversations + random scripts",
-   text="Invariants I1-I6 (no unconfirmed success, fail-stop, <=3 attempts each after a failed report, own address on everything emitted, foreign replies never treated as own, fail-stop inside the reset handshake) are evaluated on every enumerated conversation (fresh Sign objects, and Sign objects reused after each of 20 canned earlier calls) and on random scripts / random call sequences on one object, without consulting the reference machine.",
+   text="Invariants I1-I6 (no unconfirmed success, fail-stop, <=3 attempts each after a failed report, own address on everything emitted, foreign replies never treated as own, fail-stop inside the reset handshake) are evaluated on every enumerated conversation (fresh Sign objects, and Sign objects reused after each of 26 canned earlier calls) and on random scripts / random call sequences on one object, without consulting the reference machine.",
    note="Trusted: the invariant checker only."),
  "C12": dict(cat="exploration", sec="4/C12", tech="runtime monitoring: catch_unwind around every delivery in a BFS over real sign states + long hostile random walks, checked and plain profiles",
    text="Every transition of the breadth-first state exploration and of long random/directed walks (all chunk lengths, arbitrary config blocks, counter saturation, lost/extra/duplicate chunks, buses of 1-3 signs, a trace-level log sink) runs under catch_unwind in a build with overflow checks on; a panic is the violation.",
